@@ -13,12 +13,12 @@ func VPH_footnotes() {
 	f := NewFootnotes()
 	var texts []string
 	var cites []string
-	family := vp_Choice("family", 3) // 0: free bytes, 1: free ASCII bytes (control characters included), 2: concrete names that are not valid UTF-8
+	family := vp_Choice("family", 3) // 0: free bytes, 1: free ASCII bytes (control characters included), 2: concrete names: not valid UTF-8, or containing fmt verbs
 	ascii := family == 1
 	for i := 0; i < k; i++ {
 		var t string
 		if family == 2 {
-			t = []string{"caf\xe9", "\xff\xfe", "ok", "a\x80b"}[vp_Choice("name", 4)]
+			t = []string{"caf\xe9", "\xff\xfe", "ok", "a\x80b", "refs/heads/50%done:report_100%s.txt"}[vp_Choice("name", 5)]
 		} else {
 			t = vp_Str("text", vp_Choice("len", tl+1))
 		}
@@ -115,5 +115,36 @@ func VPH_pathJSON() {
 	s, ok := vp_LastJSON().(string)
 	vp_Assert(ok && s == p.String(), "what is encoded is exactly the description text")
 	vp_Assert(p.String() == p.OID.String()+" ("+name+")", "description = <oid> (<name>) with the exact name bytes")
+	vp_Reach("end")
+}
+
+// VPH_footnoteVerbatim (C08, C19): the footnote block prints every cited
+// description byte for byte - it is what the reader pastes into `git
+// rev-parse` - whatever the description contains (here: fmt verbs, a trailing
+// '%', backslashes, quotes).
+func VPH_footnoteVerbatim() {
+	menu := []string{
+		"refs/heads/main:50%done/report_100%s.txt", "refs/tags/v1%d^{tree}", "HEAD:a%", "refs/heads/x:back\\slash\\n",
+		"refs/heads/q:\"quoted\"", "refs/heads/main:plain.txt",
+	}
+	f := NewFootnotes()
+	k := 1 + vp_Choice("citations", 2)
+	var texts []string
+	for i := 0; i < k; i++ {
+		t := menu[vp_Choice("description", len(menu))]
+		f.CreateCitation(t)
+		dup := false
+		for _, u := range texts {
+			dup = dup || u == t
+		}
+		if !dup {
+			texts = append(texts, t)
+		}
+	}
+	want := "\n"
+	for i, t := range texts {
+		want += "[" + strconv.Itoa(i+1) + "]  " + t + "\n"
+	}
+	vp_Assert(f.String() == want, "the footnote block prints each description verbatim")
 	vp_Reach("end")
 }
